@@ -116,6 +116,14 @@ CLAIMS = {
             "Decides conservation of characters / words per comma section, the error kinds, containment into a "
             "middleware-error block, and the First/von/Last/Jr partition for all case-class patterns up to 5 (6) words.",
             "5 C13"),
+    "C14": ("bounded decision table: abstract evaluation of parse / merge_last_name_first / parse over word-class patterns and of "
+            "the Separate/Split/Merge middleware chain (with the enclosing middlewares in between) over author lists from a pool",
+            "Bounded claim: decides the inverse law for every word-class pattern up to 4 (5) plain words per name in all three "
+            "comma forms, for braced / escaped word kinds in short names, and for author lists of 1..3 persons from a pool "
+            "that includes merged forms starting with an escape or a brace. The whole-stack route is reduced to the "
+            "middleware chain by C05 (value text preserved by writer and splitter) and C20 (stack composition). Not a claim "
+            "for arbitrary names.",
+            "5 C14"),
     "C19": ("bounded-history abstract exploration of Entry's mapping API against an insertion-ordered dict model; "
             "single-attribute perturbation table for structural equality",
             "Decides results and field order for every operation from every mapping state within the bound, agreement of "
@@ -123,11 +131,7 @@ CLAIMS = {
             "5 C19"),
 }
 
-NOT_APPLICABLE = {
-    "C14": "inverse law of split/merge through the whole stack is equality of run-time values over an unbounded name language "
-           "(case-driven partition, backslash parity): no sound static rule in reach; structural ingredients are decided "
-           "under C13 and C20 (DESIGN.md section 8)",
-}
+NOT_APPLICABLE = {}
 PENDING = "static check not built yet in this revision of /verif (see DESIGN.md section 5 for the planned rules)"
 
 
